@@ -92,6 +92,9 @@ pub open spec fn circ_max_reg(c: Circuit) -> u32 {
     (if c.max_reg_count == 0 { 0usize } else { (c.max_reg_count - 1) as usize }) as u32
 }
 
+pub open spec fn op_input_party(op: Op) -> int { match op { Op::Input(i) => i.party as int, _ => -1 } }
+pub open spec fn op_input_idx(op: Op) -> int { match op { Op::Input(i) => i.input as int, _ => -1 } }
+
 /// register r is written by an instruction before position w
 pub open spec fn written_before(c: Circuit, r: int, w: int) -> bool {
     exists|j: int| 0 <= j < w && j < c.insts.len() && (#[trigger] c.insts@[j]).out.0 == r
